@@ -156,10 +156,10 @@ def showRes : CausalGraph.Res → String
   | .err => "err"
   | .panic => "panic"
 
-def buildCG (n : Nat) (edges : List (Nat × Nat)) : CausalGraph.CG :=
+def buildCG (n : Nat) (edges : List (Nat × Nat × Nat)) : CausalGraph.CG :=
   let g0 := (List.range n).foldl (fun g i =>
     if i == 0 then (CausalGraph.addRoot g { id := i, fn := .plain }).1 else (CausalGraph.addNode g { id := i, fn := .plain }).1) {}
-  edges.foldl (fun g e => (CausalGraph.addEdge g e.1 e.2 0).getD g) g0
+  edges.foldl (fun g e => (CausalGraph.addEdge g e.1 e.2.1 e.2.2).getD g) g0
 
 /-- the verdict `Model.CausalGraph` gives for a graph op of the harness (`none`: not replayed — shortest-path ops, whose
     answer depends on which of several shortest paths `astar` picks) -/
@@ -213,7 +213,10 @@ def handler : Handler St where
     | "graph" =>
       let ks := (lst (args.getD 1 "-")).map (fun k => k.toNat?.getD 0)
       let es := (lst (args.getD 2 "-")).filterMap (fun e => match e.splitOn "-" with
-        | [a, b] => some (a.toNat?.getD 0, b.toNat?.getD 0) | _ => none)
+        | [a, bw] => (match bw.splitOn ":" with
+          | [b, w] => some (a.toNat?.getD 0, b.toNat?.getD 0, w.toNat?.getD 0)
+          | _ => some (a.toNat?.getD 0, bw.toNat?.getD 0, 0))
+        | _ => none)
       ({ fam := fam, kinds := ks, n := ks.length, cg := buildCG ks.length es }, [])
     | _ => ({ fam := fam }, [])
   onOp s op args ans :=
